@@ -138,7 +138,7 @@ def check_step(ctx, kind, st):
     if op not in ("save", "fresh", "delete", "moddelete"):
         return
     data = {"kind": kind.name, "op": st.brief(), "before_len": len(st.before), "before_head": st.before[:48].hex()}
-    if len(st.before) > LIMIT or len(st.after) > LIMIT:
+    if len(st.before) > LIMIT or len(st.after) > LIMIT or pointer_of(st.before) > len(st.before) + LIMIT:
         ctx.count("dsf:skip-large")
         return
     if op in ("save", "fresh"):
@@ -308,4 +308,6 @@ def synthetic(ctx, data):
             if exc is not None:
                 ctx.count("dsf:layout-exc-" + str(exc))
                 break
+            if pointer_of(after) > len(after) + 1000 or (not lenient and ctx.model.call("dsf_wf", hx(after)) != "ok 1"):
+                break          # reported above; do not continue a history on a file the implementation corrupted
             cur = after
